@@ -501,6 +501,7 @@ fn scn(name: &str, rules: RuleSet, leaves: &[&str]) -> Scenario
         tamper: vec![],
         ops: hist::OpKinds::basic(),
         nondeterministic: false,
+        flat_variants: vec![],
     }
 }
 
@@ -598,6 +599,10 @@ pub fn success_cases(tier: &str) -> Vec<SchedCase>
     let tp = sc_twins_plus();
     v.push(mk("twins+backup/cleaned-a-b+edit-u/build", &tp, vec![b(None), c(Some("a")), c(Some("b")), e("u", 1)], b(None)));
     v.push(mk("chain3/built+edit/build", &chain3, vec![b(None), e("s", 1)], b(None)));
+    // the producer only has to recover its target while the dependent really has to run
+    v.push(mk("chain2/reverted+edit-u/build", &chain2, vec![b(None), e("s", 1), b(None), e("s", 0), e("u", 1)], b(None)));
+    v.push(mk("chain2/cleaned-m+edit-u/build", &{ let mut c2 = chain2.clone(); c2.goals = vec![None, Some("m".to_string())]; c2 }, vec![b(None), c(Some("m")), e("u", 1)], b(None)));
+    v.push(mk("diamond/reverted+edit-u/build", &diamond, vec![b(None), e("s", 1), b(None), e("s", 0), e("u", 1)], b(None)));
     let tri = sc_triplets();
     v.push(mk("triplets/cleaned/build", &tri, vec![b(None), c(None)], b(None)));
     v.push(mk("triplets/built/clean", &tri, vec![b(None)], c(None)));
